@@ -1672,7 +1672,10 @@ class Solve(Op):
             Ms = ((M + M.T.conj()) * 0.5).real
             sa = max(1.0, abs(As).max())
             sm = max(1.0, abs(Ms).max())
-            K = sp.diags(np.arange(1.0, n + 1.0)) + 1e-3 / sa * As
+            # (offset 0.37: with an integer spectrum two eigenvalues are
+            # equally far from the default shift sigma = 10 and ARPACK may
+            # return either one)
+            K = sp.diags(np.arange(1.0, n + 1.0) + 0.37) + 1e-3 / sa * As
             Mm = sp.eye(n) + 1e-6 / sm * Ms
             kw["v0"] = np.ones(n)
             L, X = solve(K.tocsr(), Mm.tocsr(), **kw)
